@@ -746,6 +746,7 @@ type solverRunIn struct {
 	Depth    int      `json:"depth"` // longest sensor-to-neuron path (generator's own bookkeeping)
 	RelaxMax int      `json:"relaxMax"`
 	Delta    uint64   `json:"delta"`
+	Xs2      []uint64 `json:"xs2"` // second input vector, evaluated on the SAME instance without a flush
 }
 
 type solverRunOut struct {
@@ -757,6 +758,8 @@ type solverRunOut struct {
 	Fwd      *JStep    `json:"fwd"`
 	Rec      *JStep    `json:"rec"`
 	Relax    *JStep    `json:"relax"`
+	// second evaluation (LoadSensors(xs2); same propagation) on the same instance, no Flush in between
+	Std2, StdRec2, Fwd2, Rec2, Relax2 *JStep
 }
 
 func opSolverRun(g *G) (interface{}, []uint64, int, interface{}) {
@@ -764,6 +767,12 @@ func opSolverRun(g *G) (interface{}, []uint64, int, interface{}) {
 	sp, depth, family := genDAG(g, deadEnd)
 	if sp == nil {
 		return nil, nil, 0, nil
+	}
+	if len(sp.outputs) >= 2 && g.chance(0.3) {
+		// Network.Outputs need not list the outputs in allNodes order (hand-built / file-loaded networks): output i is
+		// Outputs[i] for every solver
+		g.gr.Shuffle(len(sp.outputs), func(i, j int) { sp.outputs[i], sp.outputs[j] = sp.outputs[j], sp.outputs[i] })
+		family += ":outsShuffled"
 	}
 	nIn := countKind(sp, network.InputNeuron)
 	xs := make([]float64, nIn)
@@ -775,21 +784,30 @@ func opSolverRun(g *G) (interface{}, []uint64, int, interface{}) {
 	d := []float64{1e-9, 1e-6, 1e-12}[g.intn(3)]
 	in.Delta = bits(d)
 	load := &JOp{K: "load", xs: xs}
+	xs2 := make([]float64, nIn)
+	for i := range xs2 {
+		xs2[i] = pickInput(g)
+	}
+	in.Xs2 = bitsOf(xs2)
+	load2 := &JOp{K: "load", xs: xs2}
 	out := &solverRunOut{}
 	nan := false
-	one := func(s network.Solver, std *network.Network, op *JOp) *JStep {
-		if _, err := applyOp(s, load); err != nil {
+	oneWith := func(s network.Solver, std *network.Network, ld *JOp, op *JOp) *JStep {
+		if _, err := applyOp(s, ld); err != nil {
 			c := solverErrClass(err)
 			return &JStep{Err: c, Outs: []uint64{}}
 		}
 		st := runScript(s, std, []*JOp{op}, &nan)
 		return &st[0]
 	}
+	one := func(s network.Solver, std *network.Network, op *JOp) *JStep { return oneWith(s, std, load, op) }
 	n1 := sp.build()
 	in.Net = dumpNet(n1)
 	out.Std = one(n1, n1, &JOp{K: "fwd", N: in.K})
+	out.Std2 = oneWith(n1, n1, load2, &JOp{K: "fwd", N: in.K})
 	n2 := sp.build()
 	out.StdRec = one(n2, n2, &JOp{K: "rec"})
+	out.StdRec2 = oneWith(n2, n2, load2, &JOp{K: "rec"})
 	mk := func() *network.FastModularNetworkSolver {
 		s, err := sp.build().FastNetworkSolver()
 		if err != nil {
@@ -801,8 +819,13 @@ func opSolverRun(g *G) (interface{}, []uint64, int, interface{}) {
 	if f := mk(); f != nil {
 		out.FastNet = dumpFastNet(f)
 		out.Fwd = one(f, nil, &JOp{K: "fwd", N: in.K})
-		out.Rec = one(mk(), nil, &JOp{K: "rec"})
-		out.Relax = one(mk(), nil, &JOp{K: "relax", N: in.RelaxMax, delta: d, Delta: bits(d)})
+		out.Fwd2 = oneWith(f, nil, load2, &JOp{K: "fwd", N: in.K})
+		fr := mk()
+		out.Rec = one(fr, nil, &JOp{K: "rec"})
+		out.Rec2 = oneWith(fr, nil, load2, &JOp{K: "rec"})
+		fx := mk()
+		out.Relax = one(fx, nil, &JOp{K: "relax", N: in.RelaxMax, delta: d, Delta: bits(d)})
+		out.Relax2 = oneWith(fx, nil, load2, &JOp{K: "relax", N: in.RelaxMax, delta: d, Delta: bits(d)})
 	}
 	if nan {
 		return nil, nil, 0, nil
